@@ -129,13 +129,16 @@ class Encoding:
 
 
 class Query:
-    def __init__(self, name, enc, asserts, fast_z3=False, expect="unsat"):
+    def __init__(self, name, enc, asserts, fast_z3=False, expect="unsat", z3_chunks=None):
         self.name, self.enc, self.asserts, self.fast_z3, self.expect = name, enc, asserts, fast_z3, expect
+        # thorough tier only: a partition of the input range [(label, extra assertion)]; z3 re-decides the query chunk by
+        # chunk (unsat on every chunk = unsat) where it cannot do the whole range within its cap
+        self.z3_chunks = z3_chunks
         self.answers = {}
 
-    def text(self, dialect="lemma"):
+    def text(self, dialect="lemma", extra=()):
         lines = []
-        for a in self.asserts:
+        for a in list(self.asserts) + list(extra):
             if a is True:
                 continue
             lines.append("(assert %s)" % smt.lit(a))
@@ -161,7 +164,8 @@ class _Race:
         self.procs, self.tried, self.decided, self.answer = [], [], False, None
 
 
-def run_queries(queries, workdir, tier, jobs=4, cvc5_cap=120, z3_cap_quick=60, thorough_cap=900, z3_cap_thorough=900, log=None):
+def run_queries(queries, workdir, tier, jobs=4, cvc5_cap=120, z3_cap_quick=60, thorough_cap=900, z3_cap_thorough=900,
+                z3_chunk_cap=400, log=None):
     """Decide every query with cvc5 (portfolio); cross-check with z3 where asked (quick) or everywhere (thorough).
     Fills q.answers["cvc5"] and (if attempted) q.answers["z3"]."""
     import threading
@@ -177,12 +181,22 @@ def run_queries(queries, workdir, tier, jobs=4, cvc5_cap=120, z3_cap_quick=60, t
             with open(pth, "w") as f:
                 f.write(q.text(dialect=d))
         q.path = q.paths["lemma"]
-        q.race = {"cvc5": _Race(), "z3": _Race()}
+        q.race = {"cvc5": _Race(), "z3": _Race(), "z3chunk": _Race()}
         for i, (label, args) in enumerate(CVC5_PORTFOLIO):
             stages[0 if i == 0 else i + 1].append((q, "cvc5", label, "cvc5", args, "lemma", cap))
         if tier == "quick":
             zs = Z3_QUICK if q.fast_z3 else []
             zcap = z3_cap_quick
+        elif q.z3_chunks:
+            zs = []
+            zsolver = "z3-new" if smt.have("z3-new") else "z3"
+            q.chunk_answers = []
+            for k, (clabel, cassert) in enumerate(q.z3_chunks):
+                cpath = "%s.chunk%03d.divmod.smt2" % (base, k)
+                with open(cpath, "w") as f:
+                    f.write(q.text(dialect="divmod", extra=[cassert]))
+                q.paths["chunk%d" % k] = cpath
+                stages[1].append((q, "z3chunk", "%s[divmod] %s" % (zsolver, clabel), zsolver, [], "chunk%d" % k, z3_chunk_cap))
         else:
             zs, zcap = Z3_THOROUGH, z3_cap_thorough
         for i, (label, solver, dialect) in enumerate(zs):
@@ -202,6 +216,15 @@ def run_queries(queries, workdir, tier, jobs=4, cvc5_cap=120, z3_cap_quick=60, t
             if a.status == "killed":
                 return
             race.tried.append(a)
+            if fam == "z3chunk":
+                # every chunk has to come back unsat; anything else ends the chunked cross-check
+                if a.status != "unsat":
+                    race.decided = True
+                    race.answer = a
+                if log and (a.status != "unsat" or len(race.tried) % 10 == 0 or len(race.tried) == len(q.z3_chunks)):
+                    log("    %-40s %-20s %-8s %6.1fs (%d/%d chunks done)" % (q.name, label[:20], a.status, a.wall,
+                                                                             len(race.tried), len(q.z3_chunks)))
+                return
             if a.status in ("sat", "unsat") and not race.decided:
                 race.decided = True
                 race.answer = a
@@ -226,8 +249,18 @@ def run_queries(queries, workdir, tier, jobs=4, cvc5_cap=120, z3_cap_quick=60, t
                 q.answers[fam] = race.answer
             else:
                 q.answers[fam] = sorted(race.tried, key=lambda a: order.get(a.status, 3))[0]
+        cr = q.race["z3chunk"]
+        if cr.tried:
+            wall = sum(a.wall for a in cr.tried)
+            if cr.answer is not None:
+                st = cr.answer.status if cr.answer.status in ("sat", "error") else "timeout"
+                q.answers["z3"] = smt.Answer(cr.answer.solver, st, wall, model=cr.answer.model, raw=cr.answer.raw)
+            elif len(cr.tried) == len(q.z3_chunks):
+                q.answers["z3"] = smt.Answer(cr.tried[0].solver.split(" ")[0] + " in %d chunks" % len(cr.tried), "unsat", wall)
+            else:
+                q.answers["z3"] = smt.Answer(cr.tried[0].solver, "timeout", wall)
         q.cvc5_wall = sum(a.wall for a in q.race["cvc5"].tried)
-        q.z3_wall = sum(a.wall for a in q.race["z3"].tried)
+        q.z3_wall = sum(a.wall for a in q.race["z3"].tried) + sum(a.wall for a in cr.tried)
 
 
 def verdict(queries):
@@ -260,7 +293,7 @@ def verdict(queries):
         elif z.status not in ("sat", "unsat"):
             cross.append("skipped(timeout)")
         elif z.status == a.status:
-            cross.append("agree")
+            cross.append("agree (z3 on %d range chunks)" % len(q.z3_chunks) if getattr(q, "chunk_answers", None) is not None else "agree")
             zused.add(z.solver)
         else:
             cross.append("DISAGREE")
@@ -273,11 +306,11 @@ def verdict(queries):
     n = len(cross)
     if any(c == "DISAGREE" for c in cross):
         ctext = "DISAGREE"
-    elif cross and all(c == "agree" for c in cross):
-        ctext = "agree"
-    elif any(c == "agree" for c in cross):
-        rest = sorted(set(c for c in cross if c != "agree"))
-        ctext = "agree on %d/%d queries, rest %s" % (sum(1 for c in cross if c == "agree"), n, "/".join(rest))
+    elif cross and all(c.startswith("agree") for c in cross):
+        ctext = sorted(set(cross))[-1]
+    elif any(c.startswith("agree") for c in cross):
+        rest = sorted(set(c for c in cross if not c.startswith("agree")))
+        ctext = "agree on %d/%d queries, rest %s" % (sum(1 for c in cross if c.startswith("agree")), n, "/".join(rest))
     elif cross and all(c == "not attempted" for c in cross):
         ctext = "skipped(quick tier: z3 is not known to be fast on this query)"
     elif cross:
@@ -286,8 +319,9 @@ def verdict(queries):
         ctext = "skipped"
     tried = set()
     for q in queries:
-        for a in getattr(q, "race", {}).get("z3", _Race()).tried:
-            tried.add("z3-new" if a.solver.startswith("z3-new") else "z3")
+        for fam in ("z3", "z3chunk"):
+            for a in getattr(q, "race", {}).get(fam, _Race()).tried:
+                tried.add("z3-new" if a.solver.startswith("z3-new") else "z3")
     zname = "z3 " + "+".join(sorted(set(smt.solver_version(x).split()[1] for x in (tried or {"z3"}) if smt.have(x)))) 
     return status, "%s: %s" % (zname, ctext), round(secs, 1), sat_q, reasons
 
